@@ -66,6 +66,7 @@ func (s *State) clone() *State {
 }
 
 type Obligation struct {
+	SkipTags map[string]bool // tagged assumptions this obligation leaves out (clause `uses [...]`)
 	Name     string
 	Kind     string // ensures requires inv.entry inv.preserve safe.* frame lemma cover decreases
 	Func     string
